@@ -209,3 +209,54 @@ PLAN['C19'] = flow_plan(
     'numbered 0.. in bottom-up (dfs) order, masked nodes carry the maximum label, label count = unmasked outlets = '
     'impl().outlets(), pits() = outlets that are not base levels. Non-trivial: >= 2 basins.',
     ['c19.delineations_checked'])
+
+
+# ------------------------------------------------------------------------------------------------ history harness (h_hist)
+PLAN['C09'] = {
+    'rule': 'Random histories (5-14 events quick, 5-40 thorough) on one long-lived graph: update_routes with tie-heavy '
+            'fields, set_base_levels (shrink / grow / re-order with duplicates / restore an earlier set / new set), set_mask, '
+            'operator parameter changes through the shared operator pointers (slope exponent, MST route method, MST basin '
+            'method), accumulate, basins. After every update: the caller\'s array is bit-identical to a copy; the state digest '
+            '(returned elevation, meaningful receivers / distances / weights / counts, donors, dfs, bfs + levels, accumulate(1), '
+            'accumulate(src), basins on single-direction graphs) equals bit for bit that of a fresh graph on a fresh grid object '
+            'given only the current inputs; repeating the call reproduces it. Sequences: pflood+single|multi, single+mst variants '
+            '(+multi, +snapshots), router only. Non-trivial: >= 2 updates with different inputs and a base-level / mask / parameter '
+            'change between two updates. distinct = distinct hashes of (grid, operators, inputs of every update).',
+    'floor': ['c09.updates_compared_with_fresh_graph', 'c09.repeated_calls_compared', 'c09.event.set_base_levels',
+              'c09.event.set_mask', 'c09.event.basin_method', 'c09.event.route_method', 'c09.event.slope_exp'],
+    'assumptions': ['donors are compared as sorted multisets (their storage order is not part of the statement); everything '
+                    'else bit for bit', 'masked base levels are not generated'],
+    'quick': lambda seed: runs('h_hist', FLOW6, 'asan', 2, 300),
+    'thorough': lambda seed: runs('h_hist', FLOW6, 'asan', 3, 4000),
+}
+
+PLAN['C16'] = {
+    'rule': 'Random valid sequences with 1-3 graph / elevation snapshots inserted at arbitrary valid positions, 2-4 updates '
+            'with changing fields, masks, base levels and slope exponents. After every update each graph snapshot digest '
+            '(receivers, counts, distances, weights, donors, dfs, bfs + levels, accumulate(1), accumulate(src), basins and pits '
+            'for single-direction snapshots, breadth-first and depth-first kernel outputs) is compared bit for bit with a graph '
+            'that runs only the operators before the snapshot on the same inputs (own grid object); elevation snapshots with the '
+            'elevation returned by that prefix graph; update_routes / set_base_levels / set_mask on a snapshot must fail. '
+            'Non-trivial: >= 1 snapshot and >= 2 updates. distinct = distinct hashes of (grid, operators, inputs).',
+    'floor': ['c16.graph_snapshots_compared', 'c16.elevation_snapshots_compared', 'c16.refusals_checked',
+              'c16.single_flow_snapshots', 'c16.multi_flow_snapshots'],
+    'assumptions': ['a prefix without a router (e.g. [pflood]) is completed with a single router, which does not edit elevation; '
+                    'only the elevation is compared then'],
+    'quick': lambda seed: runs('h_hist', FLOW6, 'asan', 2, 500),
+    'thorough': lambda seed: runs('h_hist', FLOW6, 'asan', 3, 8000),
+}
+
+PLAN['C20'] = {
+    'rule': 'All 7 + 7^2 + 7^3 + 7^4 = 2800 sequences over {single router, single router (4 threads), multiple router, '
+            'priority-flood resolver, spanning-tree resolver, graph snapshot, elevation snapshot} on each of 6 grid types, built '
+            'through the run-time factory the bindings use. A 20-line reference state machine predicts accept / reject, final '
+            'direction, receiver table width, snapshot key lists, and whether update_routes returns the caller\'s array; accepted '
+            'sequences are executed once on a random small field with the C06 invariants. Non-trivial: every sequence.',
+    'floor': ['c20.accepted', 'c20.rejections_expected', 'c20.executed', 'c20.returned_callers_array', 'c20.returned_own_copy'],
+    'exhaustive_counter': 'enumerated_cases',
+    'exhaustive_scope': 'all operator sequences of length 1..4 over the 7-letter alphabet, per grid type; the field used for '
+                        'execution is sampled',
+    'assumptions': ['any std::exception counts as "construction fails with an error"'],
+    'quick': lambda seed: runs('h_hist', FLOW6, 'asan', 3, 10 ** 9),
+    'thorough': lambda seed: runs('h_hist', FLOW6, 'asan', 3, 10 ** 9),
+}
